@@ -138,6 +138,19 @@ VARIANTS = [
     V( 'duration-hours-from-days', TIMES, "hours = d_secs // cls.HR", "hours			= w_secs // cls.HR", fires=[ 'T-DURATION' ] ),
     V( 'record-split-once', HFILES, "dt,sn,js = l.split( '\\t', 2 )", "dt,sn,js			= l.split( '\\t' )", fires=[ 'T-RECORD' ] ),
     V( 'record-no-newline', HFILES, "json.dumps( data ))) + '\\n',", "json.dumps( data ))),", fires=[ 'T-RECORD' ] ),
+    # ---- C11 regex translation structure (X-*)
+    V( 'regex-wildcard-before-exact', AUTO, "enc = self.encode( inp )\n try:\n return super( state, self ).__getitem__( enc )\n except KeyError:\n pass", "enc			= self.encode( inp )\n        if enc is not self.NON:\n            try:\n                return super( state, self ).__getitem__( self.ANY )\n            except KeyError:\n                pass\n        try:\n            return super( state, self ).__getitem__( enc )\n        except KeyError:\n            pass", fires=[ 'X-LOOKUP' ] ),
+    V( 'regex-wildcard-without-input', AUTO, "if enc is not self.NON: # Only apply recognizers (and ANY wildcard transition) when input is present", "if True:", fires=[ 'X-LOOKUP' ] ),
+    V( 'regex-lookup-unencoded', AUTO, "return super( state, self ).__getitem__( enc )\n except KeyError:\n pass\n if enc is not self.NON:", "return super( state, self ).__getitem__( inp )\n        except KeyError:\n            pass\n        if enc is not self.NON:", fires=[ 'X-LOOKUP' ] ),
+    V( 'regex-dead-includes-terminal', AUTO, "dead = loopback and not terminal and not initial", "dead		= loopback and not initial", fires=[ 'X-FROMREGEX' ] ),
+    V( 'regex-dead-equivalent', AUTO, "dead = loopback and not terminal and not initial", "dead		= loopback and not ( terminal or initial )", silent=[ 'X-FROMREGEX' ] ),
+    V( 'regex-dead-kept', AUTO, "if not dead:\n states[pre] = node", "if True:\n                states[pre]	= node", fires=[ 'X-FROMREGEX' ] ),
+    V( 'regex-terminal-all', AUTO, "terminal = pre in machine.finals", "terminal		= True", fires=[ 'X-FROMREGEX' ] ),
+    V( 'regex-wildcard-last', AUTO, "for sym in sorted( tab, key=lambda k: [] if k is None else [k] ):", "for sym in sorted( tab, key=lambda k: [ chr( 0x10ffff ) ] if k is None else [k] ):", fires=[ 'X-FROMREGEX' ] ),
+    V( 'regex-initial-consuming', AUTO, "return (regexstr, regex, machine, state( states[machine.initial] ))", "return (regexstr, regex, machine, states[machine.initial] )", fires=[ 'X-FROMREGEX' ] ),
+    V( 'regex-redundant-too-eager', AUTO, "redundant = dst is None and states[pre].get( True, True ) is None", "redundant	= dst is None", fires=[ 'X-FROMREGEX' ] ),
+    V( 'regex-terminal-ignores-current', AUTO, "return self._terminal and self.current.terminal and not self.loop()", "return self._terminal and not self.loop()", fires=[ 'X-TERMINAL' ] ),
+    V( 'regex-terminal-reordered', AUTO, "return self._terminal and self.current.terminal and not self.loop()", "return not self.loop() and self.current.terminal and self._terminal", silent=[ 'X-TERMINAL' ] ),
     # ---- C04 fragment arithmetic (F-*)
     V( 'frag-round-down', LOGIX, "endadv = max(( offremains + max_size + siz - 1 ) // siz, 1 ) # rounds up", "endadv		= max(( offremains + max_size ) // siz, 1 )", fires=[ 'F-FRAG' ] ),
     V( 'frag-round-extra-element', LOGIX, "endadv = max(( offremains + max_size + siz - 1 ) // siz, 1 ) # rounds up", "endadv		= max(( offremains + max_size + siz ) // siz, 1 )", fires=[ 'F-FRAG' ] ),
